@@ -10,7 +10,7 @@ CLAIM = dict(cat="proof", design="§3 C13, Appendix A.3",
         "IS ranlxd2; seeding is the 31-bit shift register, seed 0 = seed 1, only seed mod 2^31 matters, seeding injective on [1,2^31), and two seeds whose first 24 values agree are equal (Marsaglia-Zaman argument); "
         "restore(dump s) = s and the continued stream is identical. Tie: extracted model vs the real class vs GSL's gsl_rng_ranlxd2 on many seeds, positions across every refill boundary and dump/restore points, bit for bit; "
         "whole binary: two one-thread runs with the same seed write snapshots whose every dataset and attribute (except the creation-time stamp) is bitwise identical. Whole binary: same seed twice is bitwise identical also for 7 discrete sources with a packet number that does not divide (remainder packets placed by a random draw); seeds differing in a low bit and in bits 20, 27 and 30 give different snapshots; the op language has 'E' = re-seed the USED generator object.",
-   note="Trusted: Coq kernel (20 of 21 theorems axiom-free; the binary64-exactness lemma uses Flocq + standard real axioms), extraction, libgsl as third implementation. The whole-binary clause is an observation on the "
+   note="Whole-binary ties (no model): same seed twice -> identical snapshots in task-based, task-based RHD and default mode; seed pairs differing in bits 0/20/27/30 give different snapshots; seeds 0 and 1 give identical snapshots. Trusted: Coq kernel (20 of 21 theorems axiom-free; the binary64-exactness lemma uses Flocq + standard real axioms), extraction, libgsl as third implementation. The whole-binary clause is an observation on the "
         "sampled configurations (task-based ionization with diffuse field and continuous source, RHD with radiation), not a theorem: it rests on C01 (one thread => one schedule) and on the stream theorems.",
    technique="Coq proof by induction over the generator state + three-way differential correspondence (model, class, GSL)")
 W = 1 << 48
